@@ -47,7 +47,7 @@ def replay(ck, states, grouped, feats, behaviours, tier):
     for mode in ("jit", "py"):
         sel = states if mode == "jit" else states[::(2 if tier == "quick" else 3)]
         chunks = [sel[i: i + chunk] for i in range(0, len(sel), chunk)]
-        res = pool.map_tasks("impl.c14", [{"op": "states", "states": c, "mode": mode} for c in chunks], mode=mode)
+        res = pool.map_tasks("impl.c14", [{"op": "states", "states": c, "mode": mode, "wide_every": 7 if mode == "jit" else 0} for c in chunks], mode=mode)
         for c, rr in zip(chunks, res):
             if not rr["ok"]:
                 ck.violation("impl-error", {"mode": mode, "error": rr["error"], "tb": rr.get("tb", "")[-800:]},
